@@ -26,6 +26,25 @@ VERIF_DIR = os.path.dirname(os.path.dirname(os.path.abspath(__file__)))
 KIT_VERSION = 1
 
 
+def kit_digest() -> str:
+    """
+    Digest of the machinery's own sources. A replay file is a choice list, and what a choice
+    list means (which program, which schedule) is defined by the generator code that reads it:
+    a file written by another version of the kit need not reproduce.
+    """
+    import glob
+    import hashlib
+
+    base = os.path.dirname(os.path.dirname(os.path.abspath(__file__)))
+    h = hashlib.sha256()
+    for f in sorted(glob.glob(os.path.join(base, "simkit", "*.py"))
+                    + glob.glob(os.path.join(base, "checks", "*.py"))):
+        h.update(os.path.basename(f).encode())
+        with open(f, "rb") as fh:
+            h.update(fh.read())
+    return h.hexdigest()[:16]
+
+
 class HarnessError(Exception):
     pass
 
@@ -233,6 +252,7 @@ def _worker(
                     "property": check.PROPERTY,
                     "tier": tier,
                     "kit_version": KIT_VERSION,
+                    "kit_digest": kit_digest(),
                     "verif_seed": base_seed,
                     "run_index": idx,
                     "run_seed": seed,
@@ -501,6 +521,10 @@ def run_replay(check_cls, path: str) -> int:
             print("  case: " + json.dumps(_json_safe(out.sample))[:6000])
         return 1
     print(f"replay did NOT reproduce {want}; observed {[v.key() for v in out.violations]}")
+    if rec.get("kit_digest") not in (None, kit_digest()):
+        print("  note: the file was written by another version of the machinery "
+              f"({rec.get('kit_digest')}, now {kit_digest()}); a choice list is only meaningful "
+              "to the generator version that recorded it")
     return 0
 
 
